@@ -165,6 +165,17 @@ pub fn edit_signed(signed: &mut Value, field: &str, scn: &Value, rng: &mut impl 
         // ---- link fields
         "mat_path" if is_link => obj_rename(&mut signed["materials"], 0, &|k| format!("{k}.x")),
         "prod_path" if is_link => obj_rename(&mut signed["products"], 1, &|k| format!("x/{k}")),
+        // a path separator written as backslash: another name (a backslash is an ordinary character)
+        "mat_path_backslash" if is_link => {
+            let o = signed["materials"].as_object_mut().unwrap();
+            let k = match o.keys().find(|k| k.contains('/')).cloned() {
+                Some(k) => k,
+                None => return false,
+            };
+            let v = o.remove(&k).unwrap();
+            o.insert(k.replace('/', "\\"), v);
+            true
+        }
         "mat_digest" | "prod_digest" if is_link => {
             let side = if field == "mat_digest" { "materials" } else { "products" };
             let o = signed[side].as_object_mut().unwrap();
@@ -377,6 +388,14 @@ pub fn edit_signed(signed: &mut Value, field: &str, scn: &Value, rng: &mut impl 
         }
         "rule_keyword" if !is_link => {
             signed["steps"][0]["expected_products"][0][0] = json!("DELETE");
+            true
+        }
+        "rule_pattern_backslash" if !is_link => {
+            let cur = signed["steps"][0]["expected_materials"][0][1].as_str().unwrap_or("").to_string();
+            if !cur.contains('/') {
+                return false;
+            }
+            signed["steps"][0]["expected_materials"][0][1] = json!(cur.replace('/', "\\"));
             true
         }
         "rule_pattern" if !is_link => {
